@@ -709,9 +709,52 @@ fn load_contracts(paths: &[String]) -> Contracts {
     c
 }
 
+// degraded matching: contract text names loop iterators by the ordinal the loop had when the contract was written (`it7`);
+// when loops were inserted or removed the paired loop has another ordinal, so the names are rewritten for the whole function
+fn rename_its(txt: &str, map: &HashMap<usize, usize>) -> String {
+    let b: Vec<char> = txt.chars().collect();
+    let mut out = String::new();
+    let mut i = 0;
+    while i < b.len() {
+        let boundary = i == 0 || !(b[i - 1].is_alphanumeric() || b[i - 1] == '_');
+        if boundary && i + 2 < b.len() + 1 && b[i] == 'i' && i + 1 < b.len() && b[i + 1] == 't' {
+            let mut j = i + 2;
+            while j < b.len() && b[j].is_ascii_digit() { j += 1; }
+            let end_ok = j == b.len() || !(b[j].is_alphanumeric() || b[j] == '_');
+            if j > i + 2 && end_ok {
+                let k: usize = b[i + 2..j].iter().collect::<String>().parse().unwrap_or(0);
+                match map.get(&k) { Some(n) => out.push_str(&format!("it{}", n)), None => out.push_str(&b[i..j].iter().collect::<String>()) }
+                i = j;
+                continue;
+            }
+        }
+        out.push(b[i]);
+        i += 1;
+    }
+    out
+}
+
 fn substitute(text: &str, c: &Contracts, remap: &HashMap<(String, usize), Option<usize>>) -> String {
     // replace marker identifiers (optionally followed by " ;") with contract text or nothing
-    let m = &c.text;
+    let mut renamed: HashMap<String, String> = HashMap::new();
+    if !remap.is_empty() {
+        let mut per_fn: HashMap<String, HashMap<usize, usize>> = HashMap::new();
+        for ((f, ak), ck) in remap.iter() { if let Some(ck) = ck { if ck != ak { per_fn.entry(f.clone()).or_default().insert(*ck, *ak); } } }
+        for (id, t) in c.text.iter() {
+            for (f, mp) in per_fn.iter() {
+                let rest = ["__vx_inv_", "__vx_bs_", "__vx_be_", "__vx_pre_", "__vx_post_", "__vx_lattr_", "__vx_dec_", "__vx_anc_", "__vx_fs_", "__vx_cl_"]
+                    .iter().find_map(|p| id.strip_prefix(p));
+                let mine = match rest { Some(r) => r == f || r.strip_prefix(&format!("{}_", f)).map(|d| !d.is_empty() && d.chars().all(|c| c.is_ascii_digit())).unwrap_or(false), None => false };
+                if mine { renamed.insert(id.clone(), rename_its(t, mp)); }
+            }
+        }
+    }
+    let merged: HashMap<String, String> = if renamed.is_empty() { HashMap::new() } else {
+        let mut mm = c.text.clone();
+        for (k, v) in renamed.into_iter() { mm.insert(k, v); }
+        mm
+    };
+    let m = if merged.is_empty() { &c.text } else { &merged };
     let mut out = String::new();
     let mut rest = text;
     while let Some(pos) = rest.find("__vx_") {
@@ -1154,10 +1197,23 @@ fn process_fn(cx: &mut Ctx, vis: &Visibility, sig: &Signature, block: &Block, in
             contract.sort();
             let mut used_contract: HashSet<usize> = HashSet::new();
             let mut unannotated = 0usize;
-            for (ak, _, ah, _) in a.headers.iter() {
-                let cand = contract.iter().find(|(ck, ch)| ch == ah && !used_contract.contains(ck)).map(|(ck, _)| *ck);
-                match cand {
-                    Some(ck) => { used_contract.insert(ck); cx.remap.insert((fkey.clone(), *ak), Some(ck)); }
+            // order-preserving alignment (longest common subsequence of the two fingerprint sequences): loops keep their relative
+            // order under the edits this is meant for (a loop inserted, removed, merged or split), and equal headers are told apart by position
+            let actual: Vec<(usize, String)> = a.headers.iter().map(|(ak, _, ah, _)| (*ak, ah.clone())).collect();
+            let (n1, n2) = (contract.len(), actual.len());
+            let mut dp = vec![vec![0usize; n2 + 1]; n1 + 1];
+            for i in (0..n1).rev() { for j in (0..n2).rev() {
+                dp[i][j] = if contract[i].1 == actual[j].1 { dp[i + 1][j + 1] + 1 } else { dp[i + 1][j].max(dp[i][j + 1]) };
+            } }
+            let (mut i, mut j) = (0usize, 0usize);
+            let mut paired: HashMap<usize, usize> = HashMap::new();     // actual ordinal -> contract ordinal
+            while i < n1 && j < n2 {
+                if contract[i].1 == actual[j].1 && dp[i][j] == dp[i + 1][j + 1] + 1 { paired.insert(actual[j].0, contract[i].0); i += 1; j += 1; }
+                else if dp[i + 1][j] >= dp[i][j + 1] { i += 1; } else { j += 1; }
+            }
+            for (ak, _) in actual.iter() {
+                match paired.get(ak) {
+                    Some(ck) => { used_contract.insert(*ck); cx.remap.insert((fkey.clone(), *ak), Some(*ck)); }
                     None => { cx.remap.insert((fkey.clone(), *ak), None); unannotated += 1; }
                 }
             }
